@@ -23,6 +23,8 @@ SHAPES = {
     'S11': (dict(x='bool'), dict(y='bool'), ['x', "x'"], ['x', 'y', "y'"], 1, 1),
     'S11h2': (dict(x='bool'), dict(y='bool'), ['x', "x'"], ['x', 'y', "y'"], 1, 2),
     'S11g2': (dict(x='bool'), dict(y='bool'), ['x', "x'"], ['x', 'y', "y'"], 2, 1),
+    'S11g3': (dict(x='bool'), dict(y='bool'), ['x', "x'"], ['x', 'y', "y'"], 3, 1),
+    'S11g2h2': (dict(x='bool'), dict(y='bool'), ['x', "x'"], ['x', 'y', "y'"], 2, 2),
     'B11a': (dict(x='bool'), dict(y='bool'), ['x', 'y', "x'"], ['x', 'y', "x'", "y'"], 1, 1),
     'B11b': (dict(x='bool'), dict(y='bool'), ['x', 'y', "x'", "y'"], ['x', 'y', "x'", "y'"], 1, 1),
     'B11c21': (dict(x='bool'), dict(y='bool'), ['x', 'y', "x'"], ['x', 'y', "x'", "y'"], 2, 1),
@@ -205,3 +207,16 @@ def model_params(model, params, bits, table=None):
             a = {b: z3.is_true(model.eval(bits(b), model_completion=True)) for b in d['bitnames']}
             out[p] = link.bits_to_value(p, d, a)
     return out
+
+
+def random_member(aut, params, rnd, dens=None):
+    """Seeded values for the rigid constants of a family (Boolean tables or integer template constants)."""
+    dens = dens if dens is not None else rnd.choice([0.35, 0.5, 0.65, 0.8, 0.9])
+    vals = {}
+    for p in params:
+        d = aut.vars[p]
+        if d['type'] == 'bool':
+            vals[p] = rnd.random() < dens
+        else:
+            vals[p] = rnd.randint(*d['dom'])
+    return vals
